@@ -214,6 +214,22 @@ def check(ctx):
            "right items still to be added are found by their synthetic id among the joined items" if ok else
            "unused right items are not determined by the synthetic id against the left-join result: right items that share a key "
            "with a used one are lost", clause="full_join contains every right item at least once")
+    # the shortcut that skips the reverse part is taken only when no right item is left over
+    from ..facts import facts_at as _fa
+    B_ = text(env["_B"])
+    EMPTY = {("T", f"len({B_}) == 0"), ("T", f"0 == len({B_})"), ("T", f"len({B_}) < 1"), ("F", f"len({B_})"), ("F", f"{B_}"),
+             ("F", f"len({B_}) > 0"), ("F", f"len({B_}) >= 1"), ("F", f"len({B_}) != 0"), ("T", f"len({B_}) <= 0"), ("T", f"not {B_}")}
+    rets_ = [n for n in body_nodes(fj.node) if isinstance(n, ast.Return) and n.value is not None]
+    last_line = max((r.lineno for r in rets_), default=0)
+    for r_ in rets_:
+        about_b = [(k, t) for k, t in _fa(fj, r_) if f"len({B_})" in t or t == B_]
+        if not about_b or r_.lineno == last_line:
+            continue
+        okb = any(x in EMPTY for x in about_b)
+        ctx.ob("SIB-15", fj, f"shortcut {text(r_)[:60]} under {about_b}", r_, okb,
+               "the reverse part is skipped only when every right item has been joined" if okb else
+               f"full_join returns the left join alone under {about_b}, i.e. also when right items are still left over: those items are "
+               f"missing from the result", clause="full_join additionally contains every right item at least once")
     # ------------------------------------------------------------------ AGG
     ag = repo.fn(f"{LOD}.aggregate")
     AS = ag.params[0]
